@@ -3,6 +3,7 @@
 package vrand
 
 import (
+	mrand "math/rand"
 	"crypto/rand"
 	"encoding/binary"
 	"math"
@@ -41,4 +42,15 @@ func Sequence(x float64) func() [8]byte {
 		}
 		return BytesForX(0.5 + 0.125/float64(n-1))
 	}
+}
+
+// IntnHook, if set, replaces math/rand.Intn (the random week-end day chosen
+// when the weekends file has to be created).
+var IntnHook func(n int) int
+
+func Intn(n int) int {
+	if IntnHook != nil {
+		return IntnHook(n)
+	}
+	return mrand.Intn(n)
 }
